@@ -200,7 +200,8 @@ CLAIMS = {
         "run_eq_leastModel, run_exit_closed), proved via the version-vector coverage lemma (versionsBase_covers, all n) and SCC/stratum invariants, from any "
         "well-formed start value. The model is tied to the code on every run: PRNG-generated programs (forced recursion shapes, simple-join special cases, "
         "size-skewed inputs) are compiled with the real ascent! macro and their relations (with multiplicities) and iteration counts diffed against the model "
-        "and a naive least-model oracle.",
+        "and a naive least-model oracle. Tie D: versions_base is re-translated from ascent_mir.rs on every run and proved equal to the model's versionsBase for all n "
+        "(Props/TieD.lean versionsBase_eq).",
    design_ref="DESIGN.md §8 C01, §3.1", note=ENGINE_NOTE),
  "C05": dict(
    engine="tie-B-engine",
@@ -245,14 +246,16 @@ CLAIMS = {
         "ordering and the unsafe shard access are assumptions of the interleaving theorems, exercised by multi-threaded runs but not proved."),
  "C16": dict(
    engine="tie-C-ds",
-   technique="Lean 4 theorems (LawfulLat for every shipped lattice type, compositional over nesting) + exhaustive pair correspondence (tie C)",
+   technique="Lean 4 theorems (LawfulLat for every shipped lattice type, compositional over nesting) + model parts regenerated from the Rust source by a translator and proved equal to the hand model (tie D) + exhaustive pair correspondence (tie C)",
    text="Lean 4 theorems, kernel-checked for ALL values and every nesting depth: a structure LawfulLat (partial order, join/meet are lub/glb "
         "of the type's PartialOrd, join_mut/meet_mut leave the same value and return true exactly when the receiver changed, bounds extremal) is "
         "proved for the model of every shipped Lattice impl (primitives, bool, Option, Box, Rc/Arc, Reverse, Dual, OrdLattice, lexicographic tuples, "
         "Product of tuples of any arity and of arrays, Set, BoundedSet incl. its size invariant, ConstPropagation) compositionally, and the algebraic "
         "laws of the statement (commutative, associative, idempotent, absorbing, a<=b iff join=b iff meet=a) are derived generically. The hand-written "
         "model is tied to ascent_base on every run by evaluating every operation on every ordered pair of small-carrier values of 52 registered types "
-        "(incl. nested compositions) on both sides and diffing; the laws are also checked on the implementation's own answer table.",
+        "(incl. nested compositions) on both sides and diffing; the laws are also checked on the implementation's own answer table. Tie D: ConstPropagation "
+        "(partial_cmp, meet, join, meet_mut, join_mut), combine_orderings and Option's meet_mut / join_mut are RE-TRANSLATED from the Rust source on every run "
+        "(tools/rs2lean.py) and proved equal to the hand-written model (Props/TieD.lean), so a changed match arm breaks a proof.",
    design_ref="DESIGN.md §8 C16",
    note="Lean kernel; axioms propext/Classical.choice/Quot.sound; model hand-written arm by arm after lattice*.rs, tied by exhaustive pair "
         "correspondence; std's derived PartialOrd/Ord, BTreeSet and Rc/Arc::make_mut are modelled by their value semantics."),
